@@ -24,3 +24,13 @@ Fixpoint first_free (used draws : list Z) : Z :=
 Fixpoint allocs (used : list Z) (l : list (list Z)) : list Z :=
   match l with [] => [] | draws :: tl => let a := first_free used draws in a :: allocs (a :: used) tl end.
 Definition run_fmmu (l : list (list Z)) : V := VL (map VZ (allocs [] l)).
+
+(* allocations and removals in the order in which they held the lock: the windows handed out, through the proven step function *)
+Inductive fop := OAlloc (p : Z) (draws : list Z) | ORelease (p : Z).
+Fixpoint run_fops (s : fstate) (l : list fop) : list Z :=
+  match l with
+  | [] => []
+  | OAlloc p draws :: tl => let a := first_free (used s) draws in a :: run_fops (fstep s (Alloc p a)) tl
+  | ORelease p :: tl => run_fops (fstep s (Release p)) tl
+  end.
+Definition run_fmmu_ops (l : list fop) : V := VL (map VZ (run_fops {| used := []; held := [] |} l)).
